@@ -124,6 +124,13 @@ pub fn c10(tier: &str) -> i32 {
         a.push(TOp::Remove(5));
         searches.push(bt_search("C10", &format!("seed: {name} (multi-level tree of large rows): single inserts and runs of 1/3-page, 1/4-page and tiny rows in three key regions, growing and shrinking updates, removes"), cfg(4096, 3, 2), Kind::BigUInt, vec![TOp::SeedRun(n, seed_sz, false)], a, if quick { 3 } else { 5 }, if quick { 60_000 } else { 2_000_000 }));
     }
+    // text keys of EVERY length around and beyond what a cell keeps in its page (the key then continues in the overflow chain)
+    for (mk_, sib) in [(3usize, 2usize), (8, 1)] {
+        let mut lens: Vec<u16> = (1..=1500).collect();
+        lens.extend([1600, 2000, 3000, 4000, 4096, 4100, 5000, 9000, 20000]);
+        let a: Vec<TOp> = lens.iter().map(|l| TOp::KeyLen(*l)).collect();
+        searches.push(bt_search("C10", &format!("text keys of every length 1..1500 bytes (and 1600..20000): three keys sharing all but the last byte, one with a 1.5-page payload; min_keys {mk_}, siblings {sib}"), cfg(4096, mk_, sib), Kind::Text, vec![], a, 1, 100_000));
+    }
     // key types
     for (kind, name) in [(Kind::Int, "Int (negative keys)"), (Kind::Text, "Text (prefix-related keys)"), (Kind::IntText, "composite (Int, Text)")] {
         searches.push(bt_search("C10", &format!("seed: 40 keys of 200 B, {name} keys: small-key alphabet + runs"), cfg(4096, 3, 2), kind, vec![TOp::SeedRun(40, Sz::S200, false)], {
